@@ -497,3 +497,7 @@ func shareComponents[S algebra.PrimeFieldElement[S]](sh *kw.Share[S]) []*big.Int
 	}
 	return out
 }
+
+func newThreshold(t int, ids []sim.ID) (accessstructures.Monotone, error) {
+	return threshold.NewThresholdAccessStructure(uint(t), quorumOf(ids))
+}
